@@ -231,6 +231,11 @@ func (e *Env) ident(name string) Value {
 	if v, ok := e.rangeKey(name); ok {
 		return v
 	}
+	if name == "idx" {
+		if v, ok := e.loopIndex(); ok {
+			return v
+		}
+	}
 	if e.useCells && e.fi >= 0 && e.fi < len(e.st.frames) {
 		fr := e.st.frames[e.fi]
 		for i := len(fr.order) - 1; i >= 0; i-- {
@@ -267,6 +272,21 @@ func (e *Env) ident(name string) Value {
 		fr := e.st.frames[e.fi]
 		if v, ok := fr.params[name]; ok {
 			return v
+		}
+		if !e.useCells {
+			// inside old()/entry() in a closure: a captured variable of the
+			// enclosing function is read through its current binding (captured
+			// parameters such as the receiver are never reassigned)
+			for i, fv := range fr.fn.FreeVars {
+				alias := x.freeVarAlias(fr.fn, fv)
+				if (fv.Name() == name || (alias != "" && alias == name)) && i < len(fr.bind) {
+					b := fr.bind[i]
+					if b.Loc != nil {
+						return x.loadLoc(e.st, b.Loc, nil, "")
+					}
+					return b
+				}
+			}
 		}
 	}
 	if e.st.ghostLoc != nil {
@@ -340,6 +360,105 @@ func (e *Env) rangeKey(name string) (Value, bool) {
 				if v, ok := e.st.cells[c]; ok {
 					return Value{T: Add(v.T, IntLit(1)), Typ: types.Typ[types.Int]}, true
 				}
+			}
+		}
+	}
+	return Value{}, false
+}
+
+// loopIndex gives the reserved name `idx` its meaning: the index of the
+// iteration that is about to start (at a loop head / back edge, in a loop
+// contract) or that is running (in a ghost statement inside the body), for
+// `for i := a; ..; i++` (the variable the latch increments) as well as for
+// `for k, v := range slice` (the hidden range index). Contracts written with
+// idx do not depend on which of the two forms the source uses.
+func (e *Env) loopIndex() (Value, bool) {
+	if e.fi < 0 || e.fi >= len(e.st.frames) {
+		return Value{}, false
+	}
+	fr := e.st.frames[e.fi]
+	atHead := e.loopHdr != nil
+	var li *loopInfo
+	if atHead {
+		li = e.x.info(fr.fn).loops[e.loopHdr]
+	} else {
+		// innermost loop that contains the block this frame is executing
+		var cur *ssa.BasicBlock
+		prefix := fr.fn.Name() + "."
+		for i := len(e.st.trace) - 1; i >= 0; i-- {
+			if strings.HasPrefix(e.st.trace[i], prefix) {
+				n := 0
+				if _, err := fmt.Sscanf(e.st.trace[i][len(prefix):], "%d", &n); err == nil && n < len(fr.fn.Blocks) {
+					cur = fr.fn.Blocks[n]
+				}
+				break
+			}
+		}
+		if cur == nil {
+			return Value{}, false
+		}
+		for _, l := range e.x.info(fr.fn).loops {
+			if l.blocks[cur] && (li == nil || len(l.blocks) < len(li.blocks)) {
+				li = l
+			}
+		}
+	}
+	if li == nil {
+		return Value{}, false
+	}
+	cellOf := func(a *ssa.Alloc) (Value, bool) {
+		if c, ok := fr.allocs[a]; ok {
+			if v, ok := e.st.cells[c]; ok {
+				return v, true
+			}
+		}
+		return Value{}, false
+	}
+	// range over a slice/array/string: the header loads, increments and stores
+	// the hidden index
+	for _, in := range li.header.Instrs {
+		st, ok := in.(*ssa.Store)
+		if !ok {
+			continue
+		}
+		if a, ok := st.Addr.(*ssa.Alloc); ok && a.Comment == "rangeindex" {
+			v, ok := cellOf(a)
+			if !ok {
+				return Value{}, false
+			}
+			if atHead {
+				return Value{T: Add(v.T, IntLit(1)), Typ: types.Typ[types.Int]}, true
+			}
+			return Value{T: v.T, Typ: types.Typ[types.Int]}, true
+		}
+	}
+	// three-clause loop: the variable a latch block increments by one
+	for _, p := range li.header.Preds {
+		if !li.blocks[p] {
+			continue
+		}
+		for _, in := range p.Instrs {
+			st, ok := in.(*ssa.Store)
+			if !ok {
+				continue
+			}
+			a, ok := st.Addr.(*ssa.Alloc)
+			if !ok {
+				continue
+			}
+			bo, ok := st.Val.(*ssa.BinOp)
+			if !ok || bo.Op != token.ADD {
+				continue
+			}
+			ld, ok := bo.X.(*ssa.UnOp)
+			if !ok || ld.Op != token.MUL || ld.X != ssa.Value(a) {
+				continue
+			}
+			if c, ok := bo.Y.(*ssa.Const); !ok || c.Value == nil || c.Value.ExactString() != "1" {
+				continue
+			}
+			if v, ok := cellOf(a); ok {
+				return Value{T: v.T, Typ: v.Typ}, true
 			}
 		}
 	}
